@@ -7,9 +7,7 @@ namespace Incan.Cargo
 
 /-- Every entry of the known-good table has an explicit version. -/
 theorem table_pinned : ∀ e ∈ knownTable, e.2 ≠ Spec.wildcard := by
-  intro e he
-  simp only [knownTable, List.mem_cons, List.mem_nil_iff, or_false] at he
-  rcases he with h | h | h | h | h | h | h | h | h | h | h | h | h | h | h | h | h | h | h <;> subst h <;> simp
+  decide
 
 theorem known_pinned (name : String) (spec : Spec) (h : known name = some spec) : spec ≠ .wildcard := by
   unfold known at h
